@@ -71,7 +71,9 @@ def make_cases(rng, n_types, vals_per_type, depth, cfg=None):
         try:
             with warnings.catch_warnings():
                 warnings.simplefilter('ignore')
+                terms.clear_typing_caches()
                 b = build(term, rng)
+                terms.verify(term, b.py)
         except Unsupported:
             continue
         for _ in range(vals_per_type):
